@@ -178,6 +178,34 @@ def r3_edn_tag_tables(ctx):
         ctx.ob("C19.R3", f"{EDN}::writer emits {w!r}", EDN, rd.line, ok, "" if ok else why)
 
 
+@rule("C19.R5", floor=3)
+def r5_edn_writer_visits_every_element(ctx):
+    """The EDN collection writers iterate (seq coll) with doseq / map-indexed and never decide
+    whether there is something to write by the truth value of an element ((when-let [v (first e)]
+    ...)): nil and false are legitimate first elements."""
+    forms = ctx.lisp(EDN)
+    targets = []
+    defs = L.top_defs(forms)
+    ws = defs.get("write-seq")
+    if ws is None:
+        raise AnalysisError("anchor vanished: edn.lpy::write-seq")
+    targets.append(("write-seq", ws))
+    for top in forms:
+        if L.head(top) == "extend-protocol" and len(top.items) > 1 and L.is_sym(top.items[1], "EDNEncodeable"):
+            targets.append(("extend-protocol EDNEncodeable", top))
+    for name, t in targets:
+        bad = []
+        for f in L.walk(t):
+            h = L.head(f)
+            if h in ("when-let", "if-let") and isinstance(f.items[1], L.Vec) and len(f.items[1].items) >= 2 and L.head(f.items[1].items[1]) in ("first", "second", "peek", "nth", "last"):
+                bad.append(f"`({h} {f.items[1].text()} ...)`")
+            if h in ("when", "if") and len(f.items) > 1 and L.head(f.items[1]) in ("first", "second", "peek", "last"):
+                bad.append(f"`({h} {f.items[1].text()} ...)`")
+        ctx.ob("C19.R5", f"{EDN}::{name}::no element used as a truth value", EDN, t.line, not bad, "" if not bad else f"{bad[0]} tests an element: a collection starting with nil or false is written as empty")
+    ok = any(L.head(f) == "doseq" for f in L.walk(ws)) and "(seq e)" in ws.text()
+    ctx.ob("C19.R5", f"{EDN}::write-seq::iterates (seq e) with doseq", EDN, ws.line, ok, "" if ok else "write-seq no longer walks every element of the collection")
+
+
 def _ben_defs(ctx):
     return L.top_defs(ctx.lisp(BEN))
 
